@@ -95,6 +95,16 @@ SPECS = [
          row_mode=True, mod=True),
     dict(name="affine_forward", py="transforms.py:AffineTransform.forward", objects={"self": ("Affine", "")}, params={"x": "V"}, row_mode=True),
     dict(name="affine_inverse", py="transforms.py:AffineTransform.inverse", objects={"self": ("Affine", "")}, params={"y": "V"}, row_mode=True),
+    # ---------------------------------------------------------------- proposal wrappers (one row; the data transform and the network are parameters)
+    dict(name="zuko_log_prob", py="flows/torch/flows.py:ZukoFlow.log_prob", params={"x": "V"}, ignore_params=["xp"], objects={"self": ("Empty", "")},
+         calls={"self.rescale": ("rescale", "V->VS"), "self._flow().log_prob": ("base", "V->S")}),
+    dict(name="zuko_sample_and_log_prob", py="flows/torch/flows.py:ZukoFlow.sample_and_log_prob", ignore_params=["n_samples", "xp"], objects={"self": ("Empty", "")},
+         calls={"self.flow().rsample_and_log_prob": ("draw", "const:VS"), "self.inverse_rescale": ("inverse_rescale", "V->VS")}),
+    dict(name="flowjax_log_prob", py="flows/jax/flows.py:FlowJax.log_prob", params={"x": "V"}, ignore_params=["xp"], objects={"self": ("Empty", "")},
+         calls={"self.rescale": ("rescale", "V->VS"), "self._flow.log_prob": ("base", "V->S")}),
+    dict(name="flowjax_sample_and_log_prob", py="flows/jax/flows.py:FlowJax.sample_and_log_prob", ignore_params=["n_samples", "xp"], objects={"self": ("Empty", "")},
+         skip_calls=["jrandom.split"],
+         calls={"self._flow.sample": ("draw", "const:V"), "self._flow.log_prob": ("base", "V->S"), "self.inverse_rescale": ("inverse_rescale", "V->VS")}),
     # ---------------------------------------------------------------- kernel targets
     dict(name="smc_kernel_target", py="samplers/smc/base.py:SMCSampler.log_prob", objects={"samples": ("SMCSamples", "s_")},
          params={"beta": "S"}, ignore_params=["z"], extra_params={"log_abs_det_jacobian": "V"},
@@ -145,6 +155,7 @@ GROUPS = {
     "SrcTarget": (["SrcSmcSamples"], ["smc_kernel_target", "mcmc_kernel_target"]),
     "SrcTransforms": ([], ["logit", "sigmoid", "bounded_init", "to_unit_interval", "from_unit_interval", "logit_forward", "logit_inverse",
                            "probit_forward", "probit_inverse", "periodic_forward", "periodic_inverse", "affine_forward", "affine_inverse"]),
+    "SrcFlows": ([], ["zuko_log_prob", "zuko_sample_and_log_prob", "flowjax_log_prob", "flowjax_sample_and_log_prob"]),
     "SrcDump": ([], ["dump_pickle_to_hdf"]),
     "SrcLoop": ([], ["should_checkpoint", "loop_exit", "init_min_step", "resume_loop_flag", "final_evidence"]),
 }
